@@ -250,6 +250,9 @@ def run(ctx):
     ctx.rule("C14-faults-propagate", "a library whose import declaration or body statement (expression or definition) faults fails to load with "
                                      "that error, and nothing after the failing declaration is processed (table of eval_library_definition)")
     libtables.rule_body_failures(ctx, "C14-faults-propagate")
+    # the outcome of a later import must not depend on an earlier failed one: a library whose body fails leaves the importer's
+    # import phase as it was (a later (import ...) of a healthy library is still accepted)
+    libtables.rule_state_after_body_failure(ctx, "C14-history-independent")
     ctx.rule("C14-history-independent", "loading a library from its file registers / caches nothing under another name the file may also "
                                         "hold: the outcome of a later import does not depend on this one having been attempted")
     libtables.rule_file_load(ctx, "C14-history-independent")
